@@ -29,6 +29,10 @@ RULES = {
     "keycond": ("Rule((MapValue(key=Key.not_equal_to('l'), value=Value.is_instance(dict)), 'b'), Value.truthy() & Value.not_equal_to(t))", [("t", "int")]),
     "patharg": ("Rule(('a', 'b'), Value.equal_to(DataPath(1)))", []),
     "patharg2": ("Rule(('a', 'c', ListValue()), Value.in_(DataPath('l', ListValue())) | Value.less_than(DataPath('a', 'c').length()))", []),
+    # the root path (no parts) as a data-path argument, with modifiers: serialised as {'path[.mod]': []}
+    "rootarg": ("Rule(('a', 'c', 1), Value.equal_to(DataPath().length()) | Value.in_(DataPath().map_keys()))", []),
+    "rootarg.cast": ("Rule(('n',), Value.less_than(DataPath().length()) | Value.in_([DataPath().length(), t]), cast={str: int})", [("t", "int")]),
+    "rootarg.kw": ("Rule(('a',), Value.items_contain(b=DataPath('a', 'b'), c=DataPath()) | Value.dtype.equal_to(DataPath().dtype()))", []),
     "intkey": ("Rule((1,), Value.in_range(lo, hi))", [("lo", "int"), ("hi", "int")]),
     "mol": ("Rule((MapOrListValue(key=k, index=0, label='first'),), Value.is_instance(dict, list, int))", [("k", "str")]),
     "empty": ("Rule((), Value.keys_contain_at_least_N_of(n, ['a', 's', 'zz']))", [("n", "int")]),
@@ -86,6 +90,7 @@ COMBOS = [
     ["eq"], ["fan"], ["castbool"], ["castint"], ["castfan"], ["castmap"], ["keycond"], ["patharg"], ["patharg2"], ["intkey"], ["mol"],
     ["empty"], ["null"], ["emptycast"], ["castbool", "castint"], ["eq", "castbool", "fan"], ["castfan", "castmap"], ["keycond", "castint", "empty"],
     ["patharg", "castint"], ["mol", "null", "castbool"], ["docstr"], ["docmap", "docstr", "fan"], ["docraw"], ["docraw2", "eq"],
+    ["rootarg"], ["rootarg.cast", "castbool"], ["rootarg.kw", "eq"],
 ]
 
 
